@@ -379,6 +379,6 @@ pub fn run(args: &Args, report: &mut Report) {
         return;
     }
     let seed = args.seed ^ 0xC18;
-    let n = report.size(6000, 160_000);
+    let n = report.size(6000, 1_500_000);
     crate::report::par_run(report, n, |i, rep| run_cfg(rep, &gen_cfg(seed, i), false));
 }
